@@ -43,6 +43,10 @@ def corpus(tier, seed):
         std_spec("rect3", s + 28, 50, reparameterisations={"q": "rescaletobounds", "a": "logit"}),
         # prior that is -inf inside the bounds (disc in a box)
         std_spec("disc2", s + 27, 50),
+        # tiny rejection batches on a prior with zero-density regions: a batch may hold only zero-prior candidates
+        std_spec("disc2", s + 29, 25, drawsize=2, poolsize=40, update_poolsize=False, max_iteration=120),
+        std_spec("disc2", s + 30, 25, drawsize=3, poolsize=40, update_poolsize=False, max_iteration=120,
+                 latent_prior="uniform_nball", constant_volume_mode=False),
     ]
     if tier == "thorough":
         k = 13
